@@ -30,6 +30,7 @@ class ElementLinePp(ElementH1):
         self.P = np.zeros((0, 0))
         self.dP = np.zeros((0, 0, 1))
         self.p = p
+        self._X = np.array([])
 
     @staticmethod
     def _reval_legendre(y, p):
@@ -55,7 +56,8 @@ class ElementLinePp(ElementH1):
 
     def lbasis(self, X, i):
 
-        if self.P.shape[1] != X.shape[1]:
+        if self._X.shape != X.shape or (self._X != X).any():
+            self._X = X.copy()
             self.P, self.dP = self._reval_legendre(X[0, :], self.p)
 
         return self.P[i], self.dP[i]
